@@ -28,7 +28,11 @@ impl OpenOptions {
     #[verifier::external_body] pub fn create(&mut self, b: bool) -> (r: &mut OpenOptions) ensures oo_view(final(self)) == (OO { create: b, ..oo_view(old(self)) }), oo_view(r) == oo_view(final(self)) { unimplemented!() }
     #[verifier::external_body] pub fn open(&self, p: &PathBuf) -> (r: io::Result<File>) ensures r matches Ok(f) ==> file_opened_with(&f) == (oo_view(self), *p) { unimplemented!() }
 }
+// write position of a handle; unrelated to the size of the file (POSIX: a handle opened with O_APPEND starts at offset 0 and
+// is moved to the end only by each write), so a length taken from it is not the size the accounting needs
+pub uninterp spec fn file_pos(f: &File) -> u64;
 impl File {
+    #[verifier::external_body] pub fn stream_position(&mut self) -> (r: io::Result<u64>) ensures r matches Ok(p) ==> p == file_pos(old(self)), *final(self) == *old(self) { unimplemented!() }
     #[verifier::external_body] pub fn metadata(&self) -> (r: io::Result<Metadata>) ensures r matches Ok(m) ==> meta_len(&m) == file_size(self) { unimplemented!() }
 }
 impl Metadata {
